@@ -35,12 +35,12 @@ class TScripted(TracerMixin, scripted.ScriptedBase, fsic.BaseModel):
     pass
 
 
-TRACE_ARGS = [True, ['A', 'B'], 'A', ['X', 'C', 'A']]
+TRACE_ARGS = [True, ['A', 'B'], 'A', ['X', 'C', 'A'], 'AB', ['AB']]
 
 
 def names_for(arg):
     if arg is True:
-        return ['A', 'B', 'C', 'X']
+        return ['A', 'B', 'C', 'X', 'AB']
     if isinstance(arg, str):
         return [arg]
     return list(arg)
@@ -72,6 +72,7 @@ def build(cls, opts, hist):
     m.A = [1.0, 2.0, 3.0]
     m.B = [-1.0, -2.0, -3.0]
     m.X = [7.0, 8.0, 9.0]
+    m.add_variable('AB', [0.5, 1.5, 2.5])  # a variable with a name of more than one character
     if opts['pre'] == 'nonfinite':
         m.A[1] = np.nan
     return m
@@ -89,7 +90,7 @@ def call(m, entry, kw):
 
 
 def model_state(m):
-    return tuple((n, canon(m[n])) for n in ('A', 'B', 'C', 'X', 'status', 'iterations'))
+    return tuple((n, canon(m[n])) for n in ('A', 'B', 'C', 'X', 'AB', 'status', 'iterations'))
 
 
 def expected_labels(exp, opts, hist):
@@ -120,7 +121,7 @@ def run_case(case):
     kw = dict(min_iter=opts['minIter'], max_iter=opts['maxIter'], tol=scripted.TOL, failures=opts['failures'],
               errors=opts['errors'], catch_first_error=opts['cfe'])
     traced, untraced, plain = build(TScripted, opts, hist), build(TScripted, opts, hist), build(scripted.Scripted, opts, hist)
-    init = values_of(traced, ['A', 'B', 'C', 'X'], 1)
+    init = values_of(traced, ['A', 'B', 'C', 'X', 'AB'], 1)
     out = []
     r1 = call(traced, entry, dict(kw, trace=arg))
     r0 = call(untraced, entry, kw)
@@ -153,13 +154,13 @@ def run_case(case):
         elif tr.values.shape != (len(names), len(labels)):
             out.append(('shape', [len(names), len(labels)], list(tr.values.shape), 'trace array shape'))
         else:
-            idx = [['A', 'B', 'C', 'X'].index(n) for n in names]
+            idx = [['A', 'B', 'C', 'X', 'AB'].index(n) for n in names]
             log = [e for e in traced.sc_log() if e[0] == 'eval']
             final = values_of(traced, names, 1)
             after_pre = list(init)
             after_pre[2] += 1000.0  # the scripted pre-solution hook adds 1000 to C
             post_ran = traced.sc_count('post') > 0
-            before_post = values_of(traced, ['A', 'B', 'C', 'X'], 1)
+            before_post = values_of(traced, ['A', 'B', 'C', 'X', 'AB'], 1)
             if post_ran:
                 before_post[2] -= 5000.0  # ... and the post-solution hook adds 5000
             for col, lab in enumerate(labels):
@@ -173,7 +174,7 @@ def run_case(case):
                 else:
                     j = lab
                     if j < len(log):
-                        want = [log[j][3][i] for i in idx]  # entry values of pass j+1 == values after pass j
+                        want = [(log[j][3] + (init[4],))[i] for i in idx]  # entry values of pass j+1 == values after pass j (AB never changes)
                     else:
                         want = [before_post[i] for i in idx]
                 if want is not None and not same(got, want):
@@ -264,7 +265,7 @@ def run_cat_case(case):
             break
     if not all(tr.is_empty() for tr in b.trace):
         out.append(('catalogue:untraced-written', 'empty', 'non-empty', 'trace written with tracing off'))
-    names = list(a.names) if arg is True else list(arg)
+    names = list(a.names) if arg is True else ([arg] if isinstance(arg, str) else list(arg))
     lags, leads = T.LAGS, T.LEADS
     if ra[0] != 'value':
         return out  # solve() raised (e.g. offset outside the span): only the differential part applies
@@ -310,7 +311,7 @@ def run_cat_case(case):
 def run_catalogue(block, tier, acc):
     i = block['i']
     cls = c02.cat_model(i)
-    args = [True, list(cls.ENDOGENOUS), [cls.NAMES[-1]]]
+    args = [True, list(cls.ENDOGENOUS), [cls.NAMES[-1]]] + [n for n in cls.NAMES if len(n) > 1][:1]
     for dv in (0, 1):
         for max_iter in ((1, 3, 60) if tier == 'quick' else (0, 1, 2, 3, 5, 60)):
             for tol in (1e-10, 0.01):
